@@ -379,6 +379,7 @@ func runC16(c *core.Ctx) core.Meta {
 
 	checkIntegerWidths(c, "R16.18", "Virtual and physical addresses in the translator are not narrowed, nor masked with a narrower mask.", 5, []widthScope{{rel: atPkg}}, []string{"narrow", "widen-wrapped", "unsigned-diff"}, widthAllowC16)
 	checkDstFoundFromRequestAddress(c, "R16.19", "In the address translator both are the translated physical address: a write routed by its virtual address goes to a memory module that does not own the physical address it carries.", 2, NewPkgInfo(c, atPkg))
+	checkFindersReturnNilOnMiss(c, "R16.20", 1, NewPkgInfo(c, atPkg))
 	return core.Meta{Level: "other",
 		Explanation: "Structural clauses of the address translator decided on SSA of amd/timing/mem/addresstranslator: SEND-DISCIPLINE for translate/parseTranslation/respond/flush/restart (no bookkeeping or input consumption after a failed Send, nothing consumed before a Send, input consumed after success), FIELDS by provenance (physical address = page.PAddr + address mod page size; size/data/mask copied; response RspTo/Dst from the original request selected by the lower level's RspTo; payload from the lower level), in-flight record/pop pairing, coalescing guarded by page and PID equality, flush gating.",
 		NotDecided:  "reply-reordering effects on timing; the values of addresses (only the shape of the address expression); akita port semantics",
